@@ -1,13 +1,18 @@
 #!/usr/bin/env python3
-"""Summarise replays/<prop>: group violation keys by shape (digits collapsed)."""
+"""Summarise replays/<prop>: group violation keys by their part before ' @ ' / ': ' (digits collapsed)."""
 import json, glob, re, sys, collections
-prop = sys.argv[1]; lim = int(sys.argv[2]) if len(sys.argv) > 2 else 40
+prop = sys.argv[1]; lim = int(sys.argv[2]) if len(sys.argv) > 2 else 8
 groups = collections.OrderedDict()
 for f in sorted(glob.glob(f'replays/{prop}/*.json')):
     d = json.load(open(f))
-    shape = re.sub(r'-?\d+(\.\d+)?(e-?\d+)?', 'N', d['key'])[:120]
+    k = d['key']
+    head = re.split(r' @ |: a=| with \$', k)[0]
+    head = re.sub(r'\(tick\(\d+\) \| [^)]*\)', 'I', head)
+    shape = re.sub(r'-?\d+(\.\d+)?(e-?\d+)?', 'N', head)[:100]
     groups.setdefault(shape, []).append(d)
-print(len(groups), 'shapes')
+print(len(groups), 'groups,', sum(len(v) for v in groups.values()), 'violations')
 for i, (s, ds) in enumerate(groups.items()):
     if i >= lim: break
-    print(f'[{len(ds)}] {ds[0]["key"][:160]}\n      {json.dumps(ds[0]["detail"], ensure_ascii=False)[:420]}')
+    det = ds[0]["detail"]
+    brief = {k: det[k] for k in ("why", "model_trace", "impl_trace", "law", "disagreements", "what") if k in det}
+    print(f'[{len(ds)}] {ds[0]["key"][:130]}\n      {json.dumps(brief or det, ensure_ascii=False)[:300]}')
